@@ -238,10 +238,10 @@ def elimCycles (g : G) : Outcome G := do
 
 /-! ## `OrderNonTerminals` (with `cmpProduction`, `cmpString`) -/
 
-/-- `Terminal.String()` is `%q` of the name; for names without quotes, backslashes and control
-characters that is the name between double quotes -/
+/-- `Terminal.String()` is `$` for the reserved endmarker and `%q` of the name otherwise; for names without
+quotes, backslashes and control characters that is the name between double quotes -/
 def symStr : SSym → String
-  | .term t => "\"" ++ t ++ "\""
+  | .term t => if t = Generated.grammar_endmarkerName then "$" else "\"" ++ t ++ "\""
   | .nonterm n => n
 
 /-- `String[Symbol].String()` -/
